@@ -457,3 +457,17 @@ Definition open_cleanup_snaps (r : recovered) : list Z := p_deletable (r_pol r).
 Definition open_cleanup_segs (r : recovered) : list Z :=
   let p := fold_left pol_removed_snp (p_deletable (r_pol r)) (r_pol r) in
   filter (fun s => pol_may_remove_seg p s) (p_known p).
+
+(* ---------- well-formed start directory ---------- *)
+
+(* disk_ok as a boolean: evaluated on the start directory of recorded cases *)
+Definition disk_okb (table : list (list Z)) (d : disk) : bool :=
+  match d_fly d with [] => true | _ => false end &&
+  nodupZ (map fst (d_snp d)) &&
+  forallb (fun ef => match loaded_ids table (sf_bytes (snd ef)) with
+                     | Some ids => list_eqbZ ids (map fst (sf_segs (snd ef)))
+                     | None => false
+                     end &&
+                     forallb (fun s => zmem (fst s) (d_seg d)) (sf_segs (snd ef))) (d_snp d) &&
+  forallb (fun eb => negb (loads table (snd eb))) (d_junk_snp d).
+
